@@ -49,14 +49,13 @@ type (
 // BuildExecutor use db type and transaction type to build an executor. the executor can
 // add custom hook, and intercept the user's business sql to generate the undo log.
 func BuildExecutor(dbType types.DBType, transactionMode types.TransactionMode, query string) (SQLExecutor, error) {
-	parseContext, err := parser.DoParser(query)
-	if err != nil {
-		return nil, err
-	}
-
 	hooks := make([]SQLHook, 0, 4)
 	hooks = append(hooks, commonHook...)
-	hooks = append(hooks, hookSolts[parseContext.SQLType]...)
+	// a statement the parser does not understand (SAVEPOINT, XA, SELECT ... INTO @v, ...) has no
+	// type-specific hooks; whether it may run is decided by the executor, which knows the context
+	if parseContext, err := parser.DoParser(query); err == nil {
+		hooks = append(hooks, hookSolts[parseContext.SQLType]...)
+	}
 
 	e := atExecutors[dbType]()
 	e.Interceptors(hooks)
